@@ -643,6 +643,9 @@ def _do_map(pool, op, opi, o, mk_funcs, S, obs):
         kw['progress_bar_options'] = {'file': bar_out, 'bar_format': '<{n_fmt}/{total_fmt}>', 'mininterval': 0, 'miniters': 1}
     kind = op['op']
     meth = getattr(pool, kind)
+    if op.get('bad_arg'):
+        # an argument the validation rejects
+        kw[op['bad_arg']] = 'x'
     if kind == 'map' and op.get('input') == 'nd' and 'concatenate_numpy_output' in op:
         kw['concatenate_numpy_output'] = op['concatenate_numpy_output']
     try:
@@ -779,7 +782,7 @@ def _make_injection(inj, obs):
                     return
                 obs['injected'] = {'kind': 'sigkill', 'victim': st.role, 'instance': ordinal, 'point': st.points, 't': round(S.now - S.t0, 6),
                                    'in_user_function': bool(getattr(st, 'in_user', 0)), 'victim_phase': _victim_phase(S, st),
-                                   'victim_task': _victim_task(S, st)}
+                                   'victim_task': _victim_task(S, st), 'opi': len(obs.get('ops', [])) - 1}
                 S.rec('inject-sigkill', st.role)
                 S.kill_proc(st.proc)
         elif kind == 'sigint':
@@ -812,6 +815,12 @@ def _victim_phase(S, st):
             return 'after_user'
         if ev[3] == 'user':
             return ev[4] + '_ran'       # inside or just after worker_init / worker_exit
+        if ev[3] == 'q.task_done':
+            # what was acknowledged: the apply pill (its task is still to come / in hand) or a task (then the worker is between tasks)
+            for e2 in reversed(S.trace[:S.trace.index(ev)]):
+                if e2[2] == st.role and e2[3] == 'q.get' and isinstance(e2[4], str) and e2[4].startswith('tq['):
+                    return 'apply_pill_taken' if e2[5] == '\x03' else 'acked'
+            return 'acked'
         if ev[3] == 'q.put' and ev[4] == 'rq':
             return 'results_sent'
         if ev[3] == 'q.get' and isinstance(ev[4], str) and ev[4].startswith('tq['):
